@@ -10,6 +10,8 @@ they are the ones the mechanisms the property names (back-patched jumps, frame s
    (the rules of C05, run here as clauses `C03.F:`);
  * "the operand a construct leaves behind" - statement-level operand-stack balance of the generator, recursive loop
    invocations (C05.B6 / B11, same prefix);
+ * an expression over literals gives what the same expression over variables gives (constant folder vs interpreter: the
+   rules of C04 as `C03.K:`);
  * "macros see the variables they enclose", "assignments inside if-branches persist" - the assignment tracker that
    computes macro closures mirrors the engine: pre-assigned names are bound where the engine binds them, its scopes end
    where the engine's frames end, every free name is enclosed, statements that run only behind a conditional jump are
@@ -31,6 +33,10 @@ def run(ctx):
     from . import c18 as _c18
     _c05.run(ctx.borrowed("C05", "C03.F:"))
     _c18.run(ctx.borrowed("C18", "C03.M:", only=lambda rule, inst: rule.startswith(MACRO_RULES)))
+    # "expressions ... produce exactly the output the semantics define" whether or not they are folded while the template is
+    # loaded: the transparency rules of the constant folder (C04) as clauses `C03.K:`
+    from . import c04 as _c04
+    _c04.run(ctx.borrowed("C04", "C03.K:"))
     n_f = sum(1 for o in ctx.obligations if o[0].startswith("C03.F:"))
     n_m = sum(1 for o in ctx.obligations if o[0].startswith("C03.M:"))
     ctx.floor("C03 frame / jump / operand clauses (from C05)", n_f, 100)
